@@ -345,3 +345,8 @@ func TestSub_enum(t *testing.T) {
 }
 
 func TestReplay(t *testing.T) { vk.Replay(t) }
+
+// native coverage-guided fuzzing over the same generator and oracle (thorough tier)
+var subFuzz = vk.Register(&vk.Sub[Case]{Name: "random_fuzz", Gen: gen, Check: check})
+
+func FuzzSub_random_fuzz(f *testing.F) { vk.RunFuzz(f, subFuzz) }
